@@ -113,5 +113,5 @@ Isolated    == \A i \in Slots : pc[i] = "done" => m[i] = RunRespK(ps, Fixed, K(i
 (* at most the exchanges in flight hold a compress reader *)
 GzInFlight  == \A i \in Slots : gz[i] => pc[i] \in {"RespFetch", "CacheStore", "RespAdaptor", "MuxWrite"}
 
-ParAllFixed == {"F5", "F6", "F7", "HEAD", "METRIC", "ABORT", "CLONE", "GZOWN"}
+ParAllFixed == {"F5", "F6", "F7", "HEAD", "METRIC", "ABORT", "CLONE", "MULTI", "GZOWN"}
 =============================================================================
